@@ -36,6 +36,7 @@ type isoCase struct {
 	Faults []isoFault `json:"faults"`
 	Temps  []int      `json:"temps"`
 	SM     bool       `json:"sm"`
+	DefMux bool       `json:"defmux"` // the Server has no Handler of its own: diam.DefaultServeMux serves and reports
 }
 type isoConn struct {
 	Msgs     int      `json:"msgs"`
@@ -76,7 +77,10 @@ func runIsolation(id int, c *isoCase) isoLine {
 	}
 	var handler diam.Handler
 	var reps <-chan *diam.ErrorReport
-	if c.SM {
+	if c.DefMux {
+		diam.HandleFunc("CCR", echo)
+		handler, reps = nil, diam.ErrorReports()
+	} else if c.SM {
 		mach := sm.New(srvSettings)
 		mach.HandleFunc("CCR", echo)
 		handler, reps = mach, mach.ErrorReports()
